@@ -332,9 +332,19 @@ def mutate_tokens(rng: random.Random, toks: list[str]) -> list[str]:
 			t[k], t[j] = t[j], t[k]
 		elif r < 0.82:
 			t.insert(k, t[k])
-		elif r < 0.92:
+		elif r < 0.88:
 			# replace by a token of the same program (keeps names meaningful)
 			t[k] = t[rng.randrange(len(t))]
+		elif r < 0.92:
+			# dot / undot a name: `X` -> `X.Y` with Y another name of the program (or a missing one), `.Y` dropped
+			names = [x for x in t if re.fullmatch(r'[A-Za-z_][A-Za-z_0-9]*', x) and x not in KEYWORDS]
+			idx = [i for i, x in enumerate(t) if x in names]
+			if idx:
+				i = rng.choice(idx)
+				if i > 0 and t[i - 1] == '.' and rng.random() < 0.4:
+					del t[i - 1:i + 1]
+				else:
+					t[i] = f"{t[i]}.{rng.choice([*names, 'Missing', 'Nope'])}"
 		else:
 			j = min(len(t), k + rng.randint(2, 8))
 			del t[k:j]
@@ -505,6 +515,27 @@ ILL_TYPED_TEMPLATES: list[str] = [
 	'def f(a: int = nope) -> None:\n\tpass\n',
 	'def f() -> None:\n\tdef g() -> int:\n\t\treturn h\n\tg()\n',
 	'def f() -> None:\n\tclass L:\n\t\tpass\n\tL().x\n',
+	# dotted type annotations: the receiver resolves, the member is missing / is not a type / is a value (every annotation position)
+	'from enum import Enum\nclass Color(Enum):\n\tRed = 0\nx: Color.Red = Color.Red\n',
+	'class Outer:\n\tclass Inner: ...\na: Outer.Missing\n',
+	'class Outer:\n\tclass Inner: ...\na: Outer.Inner.Missing = 1\n',
+	'class Outer:\n\tclass Inner:\n\t\tclass Deep: ...\nb: Outer.Inner.Deep.Nope\n',
+	'class Outer:\n\tclass Inner: ...\ndef f(a: Outer.Missing) -> None: ...\n',
+	'class Outer:\n\tclass Inner: ...\ndef f() -> Outer.Missing: ...\n',
+	'class Outer:\n\tclass Inner: ...\ndef f() -> None:\n\tv: Outer.Missing = 1\n',
+	'class Outer:\n\tclass Inner: ...\ndef f(xs: list[Outer.Missing]) -> dict[str, Outer.Nope]: ...\n',
+	'class Outer:\n\tclass Inner: ...\nclass Sub(Outer.Missing): ...\n',
+	'class Outer:\n\tn: int = 0\n\tdef m(self) -> None: ...\na: Outer.n = 1\nb: Outer.m = 2\n',
+	'class Outer:\n\tclass Inner: ...\n\tv: Outer.Nope\n\tdef m(self, p: Outer.Nope) -> None: ...\n',
+	'def f() -> None:\n\tx: int.real = 1\n',
+	'def f(s: str.upper, n: int.Missing) -> None: ...\n',
+	'from typing import TypeAlias\nclass Outer:\n\tclass Inner: ...\nX: TypeAlias = Outer.Missing\nY: TypeAlias = dict[str, Outer.Missing]\n',
+	'from typing import TypeVar, Generic\nT = TypeVar("T")\nclass G(Generic[T]):\n\tdef g(self, a: T.x) -> T.y: ...\n',
+	'from typing import ParamSpec\nfrom collections.abc import Callable\nP = ParamSpec("P")\ndef f(c: Callable[P, int], *args: P.args, **kwargs: P.kwargs) -> None: ...\n',
+	'from typing import ParamSpec\nP = ParamSpec("P")\ndef f(*args: P.nope, **kwargs: P.missing) -> None: ...\n',
+	'from enum import Enum\nclass E(Enum):\n\tA = 0\ndef f(e: E.A) -> E.B:\n\treturn e\n',
+	'class Outer:\n\tclass Inner: ...\ndef f() -> None:\n\ttry:\n\t\tpass\n\texcept Outer.Missing as e:\n\t\tpass\n',
+	'from rogw.tranp.compatible.cpp.cvar import CP\nclass Outer:\n\tclass Inner: ...\ndef f(a: CP[Outer.Missing], b: CP.Missing) -> None: ...\n',
 	'if x:\n\tpass\n',
 	'while x.y:\n\tpass\n',
 	'for i in x:\n\tpass\n',
@@ -522,7 +553,7 @@ ILL_TYPED_TEMPLATES: list[str] = [
 	'\n\n\n',
 ]
 
-ILL_SUBST = ['Nope', 'int', 'str', 'None', 'list[int]', 'dict[str, int]', 'A', 'T', 'x', '1', "'s'", 'self', 'cls', 'f', 'Enum', 'CP', 'CP[int]', 'Callable[[int], int]', 'tuple[int, ...]', 'type[int]']
+ILL_SUBST = ['Outer.Missing', 'A.B', 'int.real', 'E.A', 'T.x', 'self.v', 'cls.v', 'x.y.z', 'Nope', 'int', 'str', 'None', 'list[int]', 'dict[str, int]', 'A', 'T', 'x', '1', "'s'", 'self', 'cls', 'f', 'Enum', 'CP', 'CP[int]', 'Callable[[int], int]', 'tuple[int, ...]', 'type[int]']
 
 
 def ill_typed(rng: random.Random) -> str:
